@@ -1228,8 +1228,10 @@ class XmlFormatter(Formatter):
             )
         ).toprettyxml(indent=indent)
         if self.omit_prefix:
-            query = f"({'|'.join(f'{s}:' for s in prefixes)})"
-            s = re.sub(query, "", s)
+            # Remove the prefixes from element and attribute names only
+            # (not from text content, attribute values or the namespace declaration itself)
+            query = f"(\"[^\"]*\")|(?<=[\\s</])({'|'.join(f'{re.escape(s)}:' for s in prefixes)})"
+            s = re.sub(r"<[^>]*>", lambda tag: re.sub(query, lambda m: m[1] or "", tag[0]), s)
 
         return s
 
